@@ -282,7 +282,7 @@ func c06Scenarios(tier string) []*world.Scenario {
 	}
 	// the fragments of pipelined split MSETs on their way to a node that reads slowly (more than 64 KiB parked, drained in
 	// pieces, further fragments queued meanwhile): the node receives exactly the fragments
-	out = append(out, SlowBackendOverflow("C06", 5, 40000, 2))
+	out = append(out, SlowBackendOverflow("C06", 5, 40000, 2), SlowBackendBatch("C06", 4, 50, 2), SlowBackendBatch("C06", 3, 300, 2))
 	// one multi-key request whose keys fall into exactly 1023 / 1024 / 1025 / 2048 distinct slots of ONE node (that many
 	// fragments are queued for one connection in one loop round)
 	{
@@ -334,6 +334,10 @@ func c08Streams(tier string) []c08stream {
 		{"get,get,get", []Req{GetReq(a), GetReq(b), GetReq(c)}},
 		{"set-70B,get", []Req{SetReq(c, long), GetReq(a)}},
 		{"del-split,mset-split", []Req{DelReq(a, b), MSetReq(a, "1", c, "\r\n")}},
+		// many short keys: what has arrived of the request can be much less than its announced argument count suggests
+		{"mget-12keys", []Req{MGetReq("a", "b", "c", "d", "e", "f", "g", "h", "i", "j", "k", "l")}},
+		{"mset-8pairs,get", []Req{MSetReq("a", "1", "b", "2", "c", "3", "d", "4", "e", "5", "f", "6", "g", "7", "h", "8"), GetReq(a)}},
+		{"del-9keys", []Req{DelReq("a", "b", "c", "d", "e", "f", "g", "h", "i")}},
 		// many empty arguments: the shortest encodings an argument can have
 		{"del-empties", []Req{DelReq("", "", "")}},
 		{"mget-empties,get", []Req{MGetReq("", "", "", ""), GetReq(a)}},
